@@ -78,10 +78,10 @@ fn native_maxima(rng: &mut Rng, tier: &str, emit: Emit, ops: &[&str]) {
         let cap = lt.cap().unwrap_or(330).min(330);
         for &wbits in &[8usize, 16, 32, 64, 128] {
             if wbits > cap { continue; }
-            for _ in 0..scale(tier, 1) {
+            for variant in 0..(3 * scale(tier, 1)) {
                 let len = if rng.chance(1, 2) { wbits } else { wbits + rng.below(cap - wbits + 1) };
                 let mut a: Vec<bool> = (0..len).map(|i| i < wbits).collect();           // 2^w - 1
-                match rng.below(4) { 0 => { a[0] = false; } 1 if len > wbits => { a[wbits] = true; for i in 0..wbits { a[i] = false; } } _ => {} }   // 2^w - 2, 2^w
+                match variant % 3 { 1 => { a[0] = false; } 2 if len > wbits => { a[wbits] = true; for i in 0..wbits { a[i] = false; } } _ => {} }   // 2^w - 2, 2^w
                 let l = vec_token(lt, &a, rng.below(2), rng.chance(1, 3));
                 for rt in [*rng.pick(TYPES), ty_of("D"), ty_of("F64x5")] {
                     let rcap = rt.cap().unwrap_or(330).min(330);
@@ -93,7 +93,9 @@ fn native_maxima(rng: &mut Rng, tier: &str, emit: Emit, ops: &[&str]) {
                     for x in cands {
                         let r = vec_token(&rt, &x, rng.below(2), rng.chance(1, 3));
                         for op in ops {
-                            emit(line(op, &[&l, &r, FORMS[rng.below(6)]]));
+                            for f in FORMS {
+                                emit(line(op, &[&l, &r, f]));
+                            }
                             emit(line(op, &[&r, &l, "ar"]));
                         }
                     }
